@@ -487,6 +487,10 @@ fn run_liveness_prefixes(report: &Report, tier: Tier) -> (Value, usize, usize, u
         }
         let rounds = sys.fair_completion(&mut w, std::env::var("C02_TIMEOUTS_FIRST").is_ok());
         println!("rounds {rounds}");
+        if std::env::var("C02_DEBUG_WINDOW").is_ok() {
+            let r = sys.correct_leader_window(&mut w, 0, true);
+            println!("window stage: {:?}", r.map(|x| x.0));
+        }
         for (n, e) in w.emitted.iter().enumerate() {
             println!("node v{} emitted:", sys.nodes[n]);
             for m in e {
